@@ -966,6 +966,43 @@ def rx6(model):
 
 
 # ----------------------------------------------------------------------------- ML9
+def _first_nonspace_loop(fnode, name):
+    """name = 0, then `for i, c in enumerate(T): if not c.isspace(): name = i; break` (or the range(len(T))
+    form): the spelled-out search for the first non-space character, default 0"""
+    assigns = [a for a in ast.walk(fnode) if isinstance(a, ast.Assign)
+               and any(isinstance(t, ast.Name) and t.id == name for t in a.targets)]
+    others = [a for a in ast.walk(fnode) if isinstance(a, (ast.AugAssign, ast.For, ast.NamedExpr))
+              and any(isinstance(m, ast.Name) and m.id == name for m in ast.walk(a.target))]
+    if others or len(assigns) != 2:
+        return False
+    dflt = [a for a in assigns if isinstance(a.value, ast.Constant) and a.value.value == 0]
+    found = [a for a in assigns if a not in dflt]
+    if len(dflt) != 1 or len(found) != 1 or not isinstance(found[0].value, ast.Name):
+        return False
+    a = found[0]
+    lp = next((x for x in _anc(a) if isinstance(x, ast.For)), None)
+    if lp is None or dflt[0].lineno > lp.lineno:
+        return False
+    ivar = None
+    if isinstance(lp.target, ast.Tuple) and len(lp.target.elts) == 2 and isinstance(lp.iter, ast.Call) \
+            and getattr(lp.iter.func, 'id', '') == 'enumerate' and len(lp.iter.args) == 1 and not lp.iter.keywords:
+        ivar = lp.target.elts[0].id if isinstance(lp.target.elts[0], ast.Name) else None
+    elif isinstance(lp.target, ast.Name) and isinstance(lp.iter, ast.Call) and getattr(lp.iter.func, 'id', '') == 'range' \
+            and len(lp.iter.args) == 1:
+        ivar = lp.target.id
+    if ivar is None or a.value.id != ivar:
+        return False
+    st = _stmt_of(a)
+    par = getattr(a, '_parent', None)
+    if not (isinstance(par, ast.If) and par in lp.body and not par.orelse and a in par.body
+            and isinstance(par.body[-1], ast.Break)):
+        return False
+    fs = []
+    guards.split_fact(par.test, True, fs)
+    return any(not t and isinstance(e, ast.Call) and isinstance(e.func, ast.Attribute) and e.func.attr == 'isspace'
+               for e, t in fs) and len(fs) == 1
+
+
 def ml9(model):
     r = RuleResult('ML9', 'the placeholder for a short foreign-language inclusion is mapped to the '
                    'first non-blank character of the inclusion (the index found by the search for a '
@@ -985,6 +1022,8 @@ def ml9(model):
             ok = bool(vals) and all(isinstance(v, ast.Call) and getattr(v.func, 'id', '') == 'next'
                                     and any(isinstance(x, ast.Call) and T.call_name(x) == 'isspace' for x in ast.walk(v))
                                     for v in vals)
+            if not ok and isinstance(idx, ast.Name):
+                ok = _first_nonspace_loop(f.node, idx.id)
             if ok:
                 r.ok(n, 'placeholder positions = position of the first non-blank character', nontrivial=True)
             else:
